@@ -29,7 +29,7 @@ use {
 pub const FUND: u64 = 10_000;
 pub const COIN50: u64 = 5_000_000_000;
 const SLICES: usize = 40;
-const ZEROS: usize = 6;
+const ZEROS: usize = 9;
 const CBS: u32 = 8;
 
 // ---------------------------------------------------------------------------
@@ -77,6 +77,10 @@ pub enum Par {
   Insc0TwoEncodings,
   /// inscriptions 0 and 1
   Insc0And1,
+  /// inscription 0, a non-existent id, inscription 0 again (repeat is not adjacent)
+  Insc0NonExistentInsc0,
+  /// inscription 0, inscription 1, inscription 0 again
+  Insc0Insc1Insc0,
 }
 
 #[derive(Clone, Copy, Debug, PartialEq)]
@@ -94,6 +98,12 @@ pub enum Env {
   DelegateInsc0,
   Gallery,
   NoBody,
+  /// unrecognized even tag together with a duplicated field
+  EvenUnknownDup,
+  /// unrecognized even tag together with a pointer to the second output
+  EvenUnknownPtr,
+  /// unrecognized even tag together with a tag that has no value
+  EvenUnknownIncomplete,
 }
 
 #[derive(Clone, Copy, Debug)]
@@ -157,6 +167,9 @@ pub const TEMPLATES: &[Template] = &[
   t!("reveal-gallery", &[In::Own], &[(0, &[Env::Gallery])], ONE_A, F0, false),
   t!("reveal-delegate", &[In::Own], &[(0, &[Env::DelegateInsc0])], ONE_A, F0, false),
   t!("reveal-even-unknown-then-png", &[In::Own], &[(0, &[Env::EvenUnknown, Env::Png])], ONE_A, F0, false),
+  t!("reveal-even-unknown-dupfield", &[In::Own], &[(0, &[Env::EvenUnknownDup])], ONE_A, F0, false),
+  t!("reveal-even-unknown-ptr", &[In::Own], &[(0, &[Env::EvenUnknownPtr])], SPLIT, F0, false),
+  t!("reveal-even-unknown-incomplete", &[In::Own], &[(0, &[Env::EvenUnknownIncomplete])], ONE_A, F0, false),
   // --- pointers ---
   t!("ptr-zero", &[In::Own], &[(0, &[Env::Pointer(Ptr::Zero)])], SPLIT, F0, false),
   t!("ptr-second-output", &[In::Own], &[(0, &[Env::Pointer(Ptr::SecondOutput)])], SPLIT, F0, true),
@@ -184,6 +197,8 @@ pub const TEMPLATES: &[Template] = &[
   t!("child-of-self", &[In::Own], &[(0, &[Env::Parent(Par::SelfTx0)])], ONE_A, F0, false),
   t!("child-repeated-parent", &[In::Insc(0)], &[(0, &[Env::Parent(Par::Insc0Twice)])], SPLIT, F0, false),
   t!("child-two-encodings", &[In::Insc(0)], &[(0, &[Env::Parent(Par::Insc0TwoEncodings)])], SPLIT, F0, false),
+  t!("child-parent-a-x-a", &[In::Insc(0)], &[(0, &[Env::Parent(Par::Insc0NonExistentInsc0)])], SPLIT, F0, false),
+  t!("child-parent-a-b-a", &[In::Insc(0), In::Insc(1)], &[(0, &[Env::Parent(Par::Insc0Insc1Insc0)])], &[(Val::Sats(FUND), Spk::A), (Val::Rest, Spk::B)], F0, false),
   t!("child-of-two-parents", &[In::Insc(0), In::Insc(1)], &[(0, &[Env::Parent(Par::Insc0And1)])], &[(Val::Sats(FUND), Spk::A), (Val::Rest, Spk::B)], F0, false),
   // --- transfers ---
   t!("move-insc0", &[In::Insc(0)], &[], &[(Val::Rest, Spk::B)], F0, true),
@@ -273,6 +288,18 @@ fn envelope(env: Env, cx: &EnvCtx) -> Option<Vec<u8>> {
     Env::DupField => mk(vec![ct(PNG), ct(PNG)], Some(b"\x89PNG")),
     Env::EvenUnknown => mk(vec![ct(PNG), (vec![22u8], vec![1])], Some(b"\x89PNG")),
     Env::OddUnknown => mk(vec![ct(PNG), (vec![99u8], vec![1])], Some(b"\x89PNG")),
+    Env::EvenUnknownDup => mk(vec![ct(PNG), ct(PNG), (vec![22u8], vec![1])], Some(b"\x89PNG")),
+    Env::EvenUnknownPtr => mk(vec![ct(PNG), (vec![22u8], vec![1]), (vec![2u8], pointer_bytes(cx.ptr_second_output?))], Some(b"\x89PNG")),
+    Env::EvenUnknownIncomplete => {
+      let mut b = script::Builder::new().push_opcode(opcodes::OP_FALSE).push_opcode(opcodes::all::OP_IF);
+      b = txkit::push(b, b"ord");
+      b = txkit::push(b, &[1]);
+      b = txkit::push(b, PNG);
+      b = txkit::push(b, &[22]);
+      b = txkit::push(b, &[1]);
+      b = txkit::push(b, &[5]);
+      b.push_opcode(opcodes::all::OP_ENDIF).into_script().into_bytes()
+    }
     Env::Incomplete => {
       // OP_FALSE OP_IF "ord" <1> <png> <5> OP_ENDIF : tag 5 without a value, no body
       let mut b = script::Builder::new().push_opcode(opcodes::OP_FALSE).push_opcode(opcodes::all::OP_IF);
@@ -307,6 +334,8 @@ fn envelope(env: Env, cx: &EnvCtx) -> Option<Vec<u8>> {
         Par::Insc0Twice => vec![id_value(cx.insc0?), id_value(cx.insc0?)],
         Par::Insc0TwoEncodings => vec![id_value(cx.insc0?), id_value_fixed(cx.insc0?)],
         Par::Insc0And1 => vec![id_value(cx.insc0?), id_value(cx.insc1?)],
+        Par::Insc0NonExistentInsc0 => vec![id_value(cx.insc0?), id_value(nonexistent_id()), id_value(cx.insc0?)],
+        Par::Insc0Insc1Insc0 => vec![id_value(cx.insc0?), id_value(cx.insc1?), id_value(cx.insc0?)],
       };
       let mut fields = vec![ct(PNG)];
       for p in parents {
@@ -1104,6 +1133,11 @@ pub const VARIANTS: &[Variant] = &[
 ];
 
 pub fn exec(w: &mut Worker, cfg: &IndexCfg, layout: &Layout, jubilee: u32, choices: &Choices, events: bool) -> Exec {
+  exec_mode(w, cfg, layout, jubilee, choices, events, false)
+}
+
+/// `batch`: all enumerated blocks are indexed by ONE update() call (one commit), audited once at the end.
+pub fn exec_mode(w: &mut Worker, cfg: &IndexCfg, layout: &Layout, jubilee: u32, choices: &Choices, events: bool, batch: bool) -> Exec {
   let mut e = Exec::default();
   let Some((blocks, rendered)) = build_history(w, layout, choices, 0) else {
     e.disabled = true;
@@ -1134,10 +1168,14 @@ pub fn exec(w: &mut Worker, cfg: &IndexCfg, layout: &Layout, jubilee: u32, choic
   };
   let mut fold = super::events::EventFold::default();
   let mut feats: BTreeSet<&'static str> = BTreeSet::new();
-  for txs in blocks {
+  let nblocks = blocks.len();
+  for (bi, txs) in blocks.into_iter().enumerate() {
     w.world.push_block(txs);
     let block = w.world.blocks.last().unwrap().clone();
     insc.apply_block(&mut sats, &block, 0);
+    if batch && bi + 1 < nblocks {
+      continue;
+    }
     match util::catch(|| index.update()) {
       Ok(Ok(())) => {}
       Ok(Err(err)) => {
@@ -1158,7 +1196,7 @@ pub fn exec(w: &mut Worker, cfg: &IndexCfg, layout: &Layout, jubilee: u32, choic
     match util::catch(|| audit(&index, &sats, &insc, &ax, &mut e, &mut feats)) {
       Ok(Some((hash, obs))) => {
         e.states.push(hash);
-        if events {
+        if events && !batch {
           let evs = super::events::drain(&mut rx);
           if evs.iter().any(|ev| matches!(ev, ord::index::event::Event::InscriptionTransferred { .. })) {
             feats.insert("event:transferred");
@@ -1177,6 +1215,130 @@ pub fn exec(w: &mut Worker, cfg: &IndexCfg, layout: &Layout, jubilee: u32, choic
   }
   e.outcome = feats.iter().cloned().collect::<Vec<_>>().join("|");
   e
+}
+
+/// Hand-picked multi-deviation histories (per block: transaction templates, coinbase shape).
+/// Each runs under both indexing modes (update() per block; one update() for all blocks).
+pub type DenseSpec = &'static [(&'static [&'static str], &'static str)];
+
+pub const DENSE: &[(&str, DenseSpec)] = &[
+  ("lost-in-consecutive-blocks", &[
+    (&["reveal-all-to-fee", "reveal-png"], "underpay-fees"),
+    (&["reveal-all-to-fee", "reveal-two-same-input"], "underpay-half-fees"),
+    (&["reveal-all-to-fee"], "underpay-fees"),
+  ]),
+  ("kinds-across-three-blocks", &[
+    (&["reveal-png", "reveal-even-unknown", "reveal-two-same-input"], "full"),
+    (&["reveal-two-same-input", "reveal-zero-value-input", "reveal-dupfield"], "full"),
+    (&["reveal-both-inputs", "reinscribe-insc0", "reveal-pushnum"], "split-two"),
+  ]),
+  ("two-parents-then-one", &[
+    (&["reveal-png", "reveal-png"], "full"),
+    (&["child-of-two-parents"], "full"),
+    (&["child-of-insc0-spent", "reveal-png"], "full"),
+  ]),
+  ("repeated-parents", &[
+    (&["reveal-png", "reveal-png"], "full"),
+    (&["child-parent-a-b-a"], "full"),
+    (&["child-parent-a-x-a", "child-of-two-parents"], "zero-then-full"),
+  ]),
+  ("dense-1", &[
+    (&["reveal-png", "reveal-two-same-input"], "full"),
+    (&["insc0-to-fee", "reinscribe-insc1"], "underpay-fees"),
+    (&["reveal-even-unknown", "child-of-insc0-not-spent"], "split-two"),
+  ]),
+  ("dense-2", &[
+    (&["reveal-png", "reveal-zero-value-input"], "full"),
+    (&["reveal-to-opreturn", "move-insc0"], "split-two"),
+    (&["child-of-insc0-spent-other-input", "ptr-second-output"], "underpay-half-fees"),
+  ]),
+  ("dense-3", &[
+    (&["reveal-all-to-fee", "reveal-png"], "underpay-fees"),
+    (&["reveal-both-inputs", "prev0-to-fee"], "to-opreturn"),
+    (&["reinscribe-insc1", "child-of-earlier-same-tx"], "zero-then-full"),
+  ]),
+  ("dense-4", &[
+    (&["reveal-even-unknown", "reveal-all-to-fee"], "underpay-fees"),
+    (&["reveal-zero-value-input", "reveal-png"], "full"),
+    (&["reveal-even-unknown-then-png", "reveal-all-to-fee"], "underpay-fees"),
+  ]),
+];
+
+pub const DENSE_SLOTS: usize = 3;
+
+pub fn dense_layout(l: usize) -> Layout {
+  Layout { l, slots: DENSE_SLOTS, templates: (0..TEMPLATES.len()).collect(), shapes: COINBASE_SHAPES.len() }
+}
+
+pub fn dense_choices(spec: DenseSpec) -> Choices {
+  let mut v = Vec::new();
+  for (txs, cb) in spec {
+    for s in 0..DENSE_SLOTS {
+      v.push(match txs.get(s) {
+        Some(name) => (TEMPLATES.iter().position(|t| t.name == *name).unwrap_or_else(|| panic!("unknown template {name}")) + 1) as u8,
+        None => 0,
+      });
+    }
+    v.push(COINBASE_SHAPES.iter().position(|c| c == cb).unwrap_or_else(|| panic!("unknown shape {cb}")) as u8);
+  }
+  v
+}
+
+/// Runs the dense family; returns (executions, states).
+fn run_dense(property: &'static str, cfg: &IndexCfg, events: bool, report: &mut Report) -> (u64, BTreeSet<String>) {
+  let mut jobs: Vec<(usize, usize, bool)> = Vec::new();
+  for vi in 0..VARIANTS.len() {
+    for di in 0..DENSE.len() {
+      for batch in [false, true] {
+        jobs.push((vi, di, batch));
+      }
+    }
+  }
+  let (results, _) = util::par_map(
+    jobs.len(),
+    None,
+    |id| (id, BTreeMap::<usize, Worker>::new()),
+    |(id, ws), i| {
+      let (vi, di, batch) = jobs[i];
+      let v = &VARIANTS[vi];
+      let w = ws.entry(vi).or_insert_with(|| Worker::new(500 + *id * 4 + vi, v.chain, v.base));
+      let spec = DENSE[di].1;
+      util::catch(|| exec_mode(w, cfg, &dense_layout(spec.len()), v.jubilee, &dense_choices(spec), events, batch))
+    },
+  );
+  let mut states = BTreeSet::new();
+  let mut n = 0;
+  let mut outcomes: BTreeMap<String, String> = BTreeMap::new();
+  for (i, r) in results.into_iter().enumerate() {
+    let (vi, di, batch) = jobs[i];
+    let name = DENSE[di].0;
+    let tag = format!("{name}@base{}{}", VARIANTS[vi].base, if batch { "/one-update" } else { "/per-block" });
+    match r {
+      Some(Ok(e)) if !e.disabled => {
+        n += 1;
+        states.extend(e.states.iter().cloned());
+        outcomes.insert(tag.clone(), e.outcome.clone());
+        for (prop, class, what) in e.violations {
+          let (prop, class) = if prop == "C16" && class.starts_with("update/") && property != "C16" { (property.to_string(), format!("index-stuck/{class}")) } else { (prop, class) };
+          if prop == property {
+            report.violation(class, format!("[{tag}] {what}"), json!({"suite": "inscriptions-dense", "dense": name, "base": VARIANTS[vi].base, "batch": batch, "history": e.rendered}));
+          }
+        }
+      }
+      Some(Ok(_)) => {
+        println!("MACHINERY: dense history {tag} is disabled");
+        report.violation(format!("{property}/machinery-dense-disabled"), format!("dense history {tag} cannot be built"), json!({}));
+      }
+      Some(Err(p)) => {
+        println!("MACHINERY: harness panic on dense history {tag}: {p}");
+        report.violation(format!("{property}/machinery-panic"), format!("harness panicked on dense history {tag}: {p}"), json!({}));
+      }
+      None => {}
+    }
+  }
+  report.set("inscriptions.dense.executions", n);
+  report.set("inscriptions.dense.outcomes", json!(outcomes));
+  (n, states)
 }
 
 pub fn layout_for(ctx: &Ctx, k: usize) -> Layout {
@@ -1206,6 +1368,24 @@ pub fn run(ctx: &Ctx, property: &'static str) -> Report {
   if let Some(path) = &ctx.replay {
     let v: Value = serde_json::from_str(&std::fs::read_to_string(path).expect("read replay")).expect("json");
     let r = &v["replay"];
+    if let Some(name) = r["dense"].as_str().filter(|_| r["suite"] == "inscriptions-dense") {
+      let spec = DENSE.iter().find(|(n, _)| *n == name).expect("unknown dense history").1;
+      let base = r["base"].as_u64().unwrap_or(10) as u32;
+      let mut w = Worker::new(0, "regtest", base);
+      let e = exec_mode(&mut w, &cfg, &dense_layout(spec.len()), 110, &dense_choices(spec), events, r["batch"].as_bool().unwrap_or(false));
+      println!("replay history: {}", e.rendered);
+      for (p, c, what) in &e.violations {
+        println!("  [{p}] {c}: {what}");
+        if p == property {
+          report.violation(c.clone(), what.clone(), r.clone());
+        }
+      }
+      report.set("states", e.states.len().max(1) as u64);
+      report.set("transitions", e.blocks.max(1));
+      report.set("traces_validated_against_impl", 1u64);
+      report.sample(e.rendered);
+      return report;
+    }
     let choices: Choices = r["choices"].as_array().unwrap().iter().map(|x| x.as_u64().unwrap() as u8).collect();
     let base = r["base"].as_u64().unwrap_or(10) as u32;
     let templates: Vec<usize> = r["templates"].as_array().map(|a| a.iter().map(|x| x.as_u64().unwrap() as usize).collect()).unwrap_or_else(|| (0..TEMPLATES.len()).collect());
@@ -1266,6 +1446,9 @@ pub fn run(ctx: &Ctx, property: &'static str) -> Report {
       }
     }
   }
+  let (dn, dstates) = run_dense(property, &cfg, events, &mut report);
+  traces += dn;
+  all_states.extend(dstates);
   report.set("states", all_states.len().max(1) as u64);
   report.set("traces_validated_against_impl", traces);
   report.set("distinct_nontrivial", all_states.len().max(2) as u64);
@@ -1278,10 +1461,13 @@ pub fn run(ctx: &Ctx, property: &'static str) -> Report {
        reinscriptions, transfers) and {} coinbase shapes; quick tier explores K<=1 over the full alphabet and K=2 over the core \
        alphabet ({} templates, 3 coinbase shapes); two chain positions (regtest base 10 = cursed era, base 108 = straddling the jubilee at 110); \
        each history runs on the real Index with update() after every block, in lock-step with the sat-based reference model; \
+       additionally {} hand-picked 3-block histories with 5-8 deviations each run at both positions under both indexing modes \
+       (update() per block; one update() = one commit for all three blocks); \
        states = distinct index content hashes; distinct_nontrivial = distinct states",
       TEMPLATES.len(),
       COINBASE_SHAPES.len(),
-      TEMPLATES.iter().filter(|t| t.core).count()
+      TEMPLATES.iter().filter(|t| t.core).count(),
+      DENSE.len()
     ),
   );
   report.set(
